@@ -293,6 +293,8 @@ def check_usage(ctx):
 def check_scrub(ctx):
     from rules.common import check_scrub_release_clears_group
     check_scrub_release_clears_group(ctx, "C05.failed-write/scrub-release")
+    from rules.common import check_scrub_release_extent_sum
+    check_scrub_release_extent_sum(ctx, "C05.failed-write/scrub-release")
 
 
 def check(ctx):
